@@ -41,12 +41,49 @@ def run(plan):
     dev = s.dev
     res = Result()
     appfault.install(dev)
-    opname = plan["target"]
-    spec = plan["app"]
+    opname = plan.get("target", "refresh")
+    spec = plan.get("app", {})
     which = plan.get("which", 0)
     mixed = spec.get("place", "alone") != "alone"
 
+    async def history(w):
+        """Well-formed reports only, in an order or combination real units rarely produce: every operation still
+        ends normally and the object stays usable."""
+        ac = s.make_clients()[0]
+        if s.version == 3:
+            o = await s.do({"op": "auth"})
+            if o.kind != "ok":
+                res.fail(f"genuine handshake raised {o.exc_type}", repr(o.exc))
+                return
+        dev.caps_pages = [([(cid, bytes.fromhex(v)) for cid, v in plan["caps_profile"]], None)]
+        o = await s.do({"op": "caps"})
+        if o.kind != "ok":
+            res.fail(f"clean get_capabilities raised {o.exc_type}", repr(o.exc))
+            return
+        for step in plan["steps"]:
+            if "energy" in step:
+                dev.energy = bytes.fromhex(step["energy"])
+            if "humidity" in step:
+                dev.humidity = bytes.fromhex(step["humidity"])
+            if "props" in step:
+                dev.props = {int(k): bytes.fromhex(v) for k, v in step["props"].items()}
+            opn = step.get("op", "refresh")
+            o = await s.do({"op": opn})
+            if o.kind != "ok":
+                res.fail(f"{opn} raised {o.exc_type}", f"well-formed reports, step {step}: {o.exc!r}")
+                return
+            if opn == "refresh" and not ac.online:
+                res.fail("refresh offline although every report was well-formed", repr(step))
+                return
+            bad = compare_view(ac, dev.state, dev.state_len)
+            if bad and opn == "refresh":
+                res.fail("refresh view differs: " + bad[0][0], repr(bad))
+                return
+        w.fire("well_formed_report_history")
+
     async def main(w):
+        if plan.get("steps") is not None:
+            return await history(w)
         ac = s.make_clients()[0]
         if s.version == 3:
             o = await s.do({"op": "auth"})
@@ -106,8 +143,8 @@ def run(plan):
         res.fail(f"liveness: {type(e).__name__}", str(e))
     res.take(w)
     res.add_fired(dev.fired)
-    res.key = (plan["config"]["version"], opname, which, repr(spec))
-    res.nontrivial = bool(getattr(dev, "bad_frames", None))
+    res.key = (plan["config"]["version"], opname, which, repr(spec), repr(plan.get("steps")))
+    res.nontrivial = bool(getattr(dev, "bad_frames", None)) or plan.get("steps") is not None
     return res
 
 
@@ -245,4 +282,40 @@ def space(tier):
             p["caps_profile"] = prof
         return p
     sp.add("arbitrary_values", 3000 if tier == "quick" else 300_000, arbitrary_fn)
+
+    def burst_fn(j, rng):
+        # many rejected frames in one exchange, then the valid reply (one V3 segment; on V2 the packets of a burst
+        # are separate exchanges' "first packets" - known finding first_packet_wins)
+        version = 3
+        opname = rng.choice(OPS)
+        pos = rng.randrange(1, 40)
+        return {"config": cfg(version), "target": opname, "which": rng.randrange(NREQ[opname]),
+                "app": {"base": "honest", "edit": [["corrupt", pos, rng.randrange(1, 256), rng.random() < 0.5]],
+                        "place": "many_then_good", "n": rng.choice([7, 8, 9, 15, 16, 17, 40])}}
+    sp.add("bursts_of_rejected_frames", 600 if tier == "quick" else 60_000, burst_fn)
+
+    PV = {0x0009: ["00", "01", "19", "32", "64", "ff"], 0x000A: ["00", "01", "19", "32", "64", "ff"],
+          0x0018: ["00", "01", "02", "ff"], 0x0039: ["00", "01", "02"], 0x0042: ["00", "01", "02", "03", "ff"],
+          0x0043: ["00", "01", "02", "03", "04", "05", "ff"], 0x0048: ["00", "01", "14", "28", "3c", "50", "64", "ff"],
+          0x00E3: ["00", "01", "0100" + "00" * 10, "0101" + "00" * 10, "ff" * 12]}
+    E_ZERO = "00" * 16
+    ENERGIES = [E_ZERO, "00012345" + "00000000" + "00000150" + "012340" + "00", "ff" * 16, "00000001" + "00" * 12,
+                "99999999" + "99999999" + "99999999" + "999999" + "99", "00" * 12 + "00000100"]
+
+    def history_fn(j, rng):
+        version = rng.choice([2, 3])
+        pids = rng.sample(sorted(PV), rng.randint(1, 5))
+        prof = [[pid, "01"] for pid in pids] + [[0x0216, rng.choice(["01", "02"])]] * (rng.random() < 0.7) + \
+               [[0x021F, "02"]] * (rng.random() < 0.5) + [[0x0214, "01"]]
+        rng.shuffle(prof)
+        steps = []
+        for _ in range(rng.randint(2, 5)):
+            st = {"props": {str(pid): rng.choice(PV[pid]) for pid in pids}, "energy": rng.choice(ENERGIES),
+                  "humidity": rng.choice(["37" + "00" * 15, "00" * 16, "ff" * 16])}
+            if rng.random() < 0.2:
+                st["op"] = rng.choice(["apply", "toggle"])
+            steps.append(st)
+        c = cfg(version)
+        return {"config": c, "caps_profile": prof, "steps": steps}
+    sp.add("well_formed_report_histories", 2500 if tier == "quick" else 300_000, history_fn)
     return sp
